@@ -16,7 +16,7 @@ from common import Rng
 from gen_prog import arr_type, arr_val
 
 LEVEL = "proof"
-THEOREMS = [
+THEOREMS = ["C04_source_storage", 
     "C04_array_fail_restores",
     "C04_array_exc_restores",
     "C04_array_restores_all",
@@ -39,6 +39,7 @@ RULE = (
     "(prior, annotation, value)"
 )
 TRUSTED = [
+    "harness/translate_storage.py (recognisers of the statements of get/set/push/pop_shape_memo and their helpers) and the interpreter Model/StorageDsl.lean (one list object per thread cell; list end = head of the model's list)",
     "Lean 4 kernel",
     "harness/extract.py: recognition of the try/except around _check_shape and PyTree._check",
     "print_bindings() shows every binding (axes, variadics, structures) of the current context",
